@@ -18,6 +18,7 @@ package main
 import (
 	"context"
 	"fmt"
+	"io"
 	"net"
 	"strings"
 	"sync"
@@ -97,6 +98,7 @@ func (m *mesh) waitRelayed(payload string, d time.Duration) bool {
 type env struct {
 	c       *vh.Ctx
 	ln      net.Listener
+	ln6     net.Listener // [::1]: control connections over IPv6 (nil when unavailable)
 	handler *socks5.Handler
 	socks   []*net.UDPConn
 	coq     []string
@@ -137,6 +139,10 @@ func (e *env) runScenario(sc Scenario) {
 
 	if sc.ControlIP == "pipe" {
 		e.runPipeScenario(sc, m)
+		return
+	}
+	if strings.Contains(sc.ControlIP, ":") {
+		e.runV6ControlScenario(sc, m)
 		return
 	}
 	// control connection from the chosen local address
@@ -542,6 +548,124 @@ func (e *env) otherSessions(x string) {
 	wg.Wait()
 }
 
+// runV6ControlScenario: the control connection arrives over IPv6 (a
+// dual-stack or IPv6 SOCKS5 listener) and the request names no address. The
+// owner is then the IPv6 control peer; the relay socket is IPv4-only, so NO
+// datagram that can arrive comes from the owner: nothing may be relayed,
+// nobody may be recorded as the client. There is no datagram that could serve
+// as a "handled up to here" marker in this situation, so the harness waits a
+// bounded time for a forbidden effect to show up (absence within the bound
+// is a pass; the wait can only miss a defect, never raise a false alarm).
+func (e *env) runV6ControlScenario(sc Scenario, m *mesh) {
+	c := e.c
+	if e.ln6 == nil {
+		c.Count("v6-control:skipped-no-ipv6")
+		return
+	}
+	d := net.Dialer{LocalAddr: &net.TCPAddr{IP: net.ParseIP(sc.ControlIP)}, Timeout: 5 * time.Second}
+	cc, err := d.Dial("tcp", e.ln6.Addr().String())
+	if err != nil {
+		c.Fail("control-dial-failed", err.Error(), sc)
+		return
+	}
+	defer cc.Close()
+	sconn, err := e.ln6.Accept()
+	if err != nil {
+		c.Fail("control-accept-failed", err.Error(), sc)
+		return
+	}
+	handled := make(chan struct{})
+	go func() { defer close(handled); defer sconn.Close(); e.handler.Handle(sconn) }()
+	cc.SetDeadline(time.Now().Add(10 * time.Second))
+	cc.Write([]byte{5, 1, 0, 5, 3, 0, 1, 0, 0, 0, 0, 0, 0})
+	hdr := make([]byte, 6)
+	if _, err := io.ReadFull(cc, hdr); err != nil || hdr[1] != 0 || hdr[3] != 0 {
+		c.Fail("associate-failed", fmt.Sprintf("reply % x: %v", hdr, err), sc)
+		return
+	}
+	alen := 4
+	if hdr[5] == 4 {
+		alen = 16
+	}
+	rest := make([]byte, alen+2)
+	if _, err := io.ReadFull(cc, rest); err != nil {
+		c.Fail("associate-failed", fmt.Sprintf("reply % x % x: %v", hdr, rest, err), sc)
+		return
+	}
+	relay := &net.UDPAddr{IP: net.IPv4(127, 0, 0, 1), Port: int(rest[alen])<<8 | int(rest[alen+1])}
+	m.mu.Lock()
+	assoc := m.assoc
+	m.mu.Unlock()
+	if assoc == nil {
+		c.Fail("associate-failed", "no association handed to the mesh side", sc)
+		return
+	}
+	quiesce := func() bool {
+		deadline := time.Now().Add(300 * time.Millisecond)
+		for time.Now().Before(deadline) {
+			m.mu.Lock()
+			n := len(m.relayed)
+			var first string
+			if n > 0 {
+				first = m.relayed[0]
+			}
+			m.mu.Unlock()
+			if n > 0 {
+				c.Fail("datagram-from-non-owner-relayed",
+					fmt.Sprintf("the association belongs to the IPv6 control peer %s (no address in the request); a datagram from an IPv4 sender (payload %q) was relayed into the mesh", sc.ControlIP, first), sc)
+				return false
+			}
+			if dst := assoc.VerifActualClientAddr(); dst != nil {
+				c.Fail("reply-sent-to-non-owner",
+					fmt.Sprintf("the association belongs to the IPv6 control peer %s; %s was recorded as the client that replies are sent to", sc.ControlIP, dst), sc)
+				return false
+			}
+			time.Sleep(2 * time.Millisecond)
+		}
+		return true
+	}
+	var steps []string
+	sentSince := false
+	for _, ev := range sc.Events {
+		switch ev.Kind {
+		case "dgram":
+			e.nextPay++
+			pkt := append(udpHeader(ev.Bad), fmt.Sprintf("d-%d", e.nextPay)...)
+			if ev.Bad == "short" {
+				pkt = udpHeader(ev.Bad)
+			}
+			e.socks[ev.Sender].WriteToUDP(pkt, relay)
+			sentSince = true
+			steps = append(steps, fmt.Sprintf("(EvDgram %s %s, ObsRelayed false)", coqAddr(e.socks[ev.Sender].LocalAddr().(*net.UDPAddr)), vh.CoqBool(ev.Bad == "")))
+			c.Count("v6-control:dgram")
+		case "reply":
+			if sentSince {
+				if !quiesce() {
+					return
+				}
+				sentSince = false
+			}
+			if err := assoc.WriteToClient(1, []byte{9, 9, 9, 9}, 53, []byte("r")); err == nil {
+				c.Fail("reply-sent-to-non-owner", fmt.Sprintf("a reply was sent to %v although the owner (IPv6 control peer) never sent a datagram", assoc.VerifActualClientAddr()), sc)
+				return
+			}
+			steps = append(steps, "(EvReply, ObsReplyTo None)")
+		}
+	}
+	if sentSince && !quiesce() {
+		return
+	}
+	cc.Close()
+	select {
+	case <-handled:
+	case <-time.After(10 * time.Second):
+		c.Fail("handler-did-not-end", "Handle did not return within 10 s after the control connection was closed", sc)
+	}
+	c.Case(sc.Name, true, sc)
+	// the IPv6 control peer as a number that no IPv4 sender has
+	e.coq = append(e.coq, fmt.Sprintf("(mkAssoc None (Some (18446744073709551616 + 1)%%N),\n  %s)", policy.CoqListNL(steps)))
+}
+
 func coqIP(ip net.IP) string {
 	v := ip.To4()
 	return fmt.Sprintf("%d%%N", uint32(v[0])<<24|uint32(v[1])<<16|uint32(v[2])<<8|uint32(v[3]))
@@ -566,6 +690,9 @@ func witnesses() []Scenario {
 				{Kind: "session", Sender: 3}, {Kind: "dgram", Sender: 3}, {Kind: "dgram", Sender: 1}, {Kind: "reply"}}},
 		{Name: "w-other-sessions-announced-address", ControlIP: "127.0.0.1", ReqIP: "127.0.0.2", ReqPortFrom: 2,
 			Events: []Event{{Kind: "dgram", Sender: 2}, {Kind: "session", Sender: 0}, {Kind: "dgram", Sender: 0}, {Kind: "dgram", Sender: 2}, {Kind: "reply"}}},
+		// control connection over IPv6, no address in the request: no IPv4 sender is the owner
+		{Name: "w-ipv6-control-stranger-first", ControlIP: "::1", ReqPortFrom: -1,
+			Events: []Event{{Kind: "reply"}, {Kind: "dgram", Sender: 2}, {Kind: "reply"}, {Kind: "dgram", Sender: 0}, {Kind: "dgram", Sender: 3}, {Kind: "reply"}}},
 		{Name: "w-owner-only", ControlIP: "127.0.0.1", ReqPortFrom: -1,
 			Events: []Event{{Kind: "reply"}, {Kind: "dgram", Sender: 0}, {Kind: "reply"}, {Kind: "dgram", Sender: 1}, {Kind: "reply"}}},
 		// the client announces a different address than the control connection's
@@ -588,6 +715,9 @@ func genScenario(r *vh.Rand, idx int) Scenario {
 	if r.Chance(1, 8) {
 		sc.ControlIP = "pipe" // owner unknown
 	}
+	if r.Chance(1, 25) {
+		sc.ControlIP = "::1" // control connection over IPv6
+	}
 	switch r.Intn(5) {
 	case 0, 1: // no address (0.0.0.0:0)
 	case 2:
@@ -599,7 +729,7 @@ func genScenario(r *vh.Rand, idx int) Scenario {
 	case 4: // port only
 		sc.ReqPortFrom = r.Pick(0, 1, 2)
 	}
-	if sc.ControlIP == "pipe" {
+	if sc.ControlIP == "pipe" || sc.ControlIP == "::1" {
 		sc.ReqIP, sc.ReqPortFrom = "", -1
 	}
 	n := 1 + r.Intn(10)
@@ -637,6 +767,12 @@ func main() {
 		panic(err)
 	}
 	defer e.ln.Close()
+	if e.ln6, err = net.Listen("tcp6", "[::1]:0"); err != nil {
+		e.ln6 = nil
+		c.Note("IPv6 loopback not available: control connections over IPv6 are skipped")
+	} else {
+		defer e.ln6.Close()
+	}
 	// the listener must accept connections to 127.0.0.1 from 127.0.0.2 as well: it does (loopback)
 	e.handler = socks5.NewHandler(nil, nil)
 	for _, a := range senderAddrs {
